@@ -103,4 +103,6 @@ pub enum DecodeError {
     ECHLengthMismatch(usize, usize),
     #[error("Class is not IN for SVCB or HTTPS record: {0}")]
     SVCBClass(Class),
+    #[error("Duplicate service parameter key: {0}")]
+    SVCBDuplicateKey(u16),
 }
